@@ -19,7 +19,7 @@ RULE = (
     "one or several Exodus blocks, ESMF start_index attribute and pad value, MPAS zero / repeated-index / garbage padding), "
     "in memory or through a NetCDF / GeoJSON / shapefile on disk, then opened with the public readers. Oracles: faces in "
     "order with cyclically equal corner positions; standard form (dtype, fill, padding at row ends, index and coordinate "
-    "ranges); supplied centres / connectivity / areas carried over with the same meaning. Non-trivial = dialect differs from "
+    "ranges); supplied centres / connectivity / areas carried over with the same meaning. After the tables the source did not carry have been derived, faces and carried tables are judged again (Exodus sources with up to one block per element). Non-trivial = dialect differs from "
     "the plain one (0-based int64 with the standard fill, +-180 longitudes) or the mesh mixes face sizes; distinct by case hash."
 )
 ASSUMPTIONS = [
